@@ -133,11 +133,19 @@ pub fn rec_observe(args: &Args) {
         (vec![], String::new()),
         (vec![b"x".to_vec(), vec![0xFF, 0xFE]], String::new()),
         (vec!["é".as_bytes().to_vec(), b"".to_vec()], String::new()),
+        // keys that differ only by what a normalisation would fold: "/a" and "a/" next to "a"
+        (vec![b"".to_vec(), b"a".to_vec()], String::new()),
+        (vec![b"a".to_vec(), b"".to_vec()], String::new()),
+        (vec![b"A".to_vec()], String::new()),
     ];
     for p in paths.iter_mut() {
         p.1 = req("e", &[], &p.0, 0).get_path();
     }
     let mut keys: Vec<String> = paths.iter().map(|p| p.1.clone()).collect();
+    // near misses of every key are observed too (and used by notification rounds): the registry is keyed
+    // by the exact string
+    let near: Vec<String> = keys.iter().flat_map(|k| vec![format!("/{}", k), format!("{}/", k), k.trim_start_matches('/').to_string(), k.trim_end_matches('/').to_string()]).collect();
+    keys.extend(near.iter().cloned());
     keys.push("never".into());
     keys.sort();
     keys.dedup();
@@ -164,7 +172,7 @@ pub fn rec_observe(args: &Args) {
                     if r.chance(1, 6) {
                         mid = *r.pick(&[0u16, 1, 0xFF, 0x100, 0x7FFF, 0x8000, 0xFFFE, 0xFFFF]);
                     }
-                    let p = if r.chance(1, 10) { "never".to_string() } else { paths[pi].1.clone() };
+                    let p = if r.chance(1, 10) { "never".to_string() } else if r.chance(1, 6) { r.pick(&near).clone() } else { paths[pi].1.clone() };
                     ev(&mut out, &mut s, json!({"op": "changed", "p": p, "mid": mid, "con": r.chance(2, 3)}), &keys)
                 }
                 9 | 10 => {
